@@ -406,15 +406,15 @@ func (g *rgRunner) sync1(t int, out int, rng *Rng) bool {
 	g.checkCapacity(t, line)
 	broken := g.r.GetTable(itoa(int64(t))) == nil
 	asked := rel > 0 || len(nwIDs) > 0 || broken
+	if broken && rel != len(g.members[t]) {
+		g.V("C20", "break_returns_all", fmt.Sprintf("table %d was broken with %d players but told to release %d", t, len(g.members[t]), rel))
+	}
 	if rel > len(g.members[t]) {
 		g.V("C09", "counts_agree", fmt.Sprintf("%s asks to release %d players, the table has %d", line, rel, len(g.members[t])))
 		rel = len(g.members[t])
 	}
 	var released []int
 	if broken {
-		if rel != len(g.members[t]) {
-			g.V("C20", "break_returns_all", fmt.Sprintf("table %d was broken with %d players but told to release %d", t, len(g.members[t]), rel))
-		}
 		released = g.members[t]
 		delete(g.members, t)
 		g.o.Count("rg.breaks")
